@@ -70,6 +70,7 @@ var shared = map[string][]sharedRule{
 		{[]func(*core.Ctx){C04}, []string{"C04.S6"}, "C07.R17", 4, "a published message is not discarded for its (valid) headers (decided by C04.S6): the pair decoder rejects only blocks whose next read would not fit"},
 	},
 	"C10": {
+		{[]func(*core.Ctx){C11}, []string{"C11.R9"}, "C10.R21", 2, "a type written through a typedef is the type it aliases wherever the model is asked what kind it is (decided by C11.R9): every func(*Type) bool predicate that consults the declaration lists resolves typedefs — otherwise valid IDL (`throws` naming an alias of an exception) is rejected"},
 		{[]func(*core.Ctx){C11}, []string{"C11.R5"}, "C10.R17", 1, "the typedef-cycle search uses path discipline (decided by C11.R5): a DAG of typedefs — valid IDL — is not rejected as a cycle"},
 	},
 	"C14": {
